@@ -3,6 +3,7 @@ package rules
 import (
 	"fmt"
 	"go/ast"
+	"go/constant"
 	"go/token"
 	"go/types"
 	"strings"
@@ -1517,5 +1518,133 @@ func c02r13(rc *core.RC) {
 	}
 	if nCalls < 3 || nSw < 1 {
 		rc.Unknown("decoder.unmarshalTextDecoder/anchors", token.NoPos, "found %d constructor calls and %d switches over the clearing kinds (confirmed: 4 and 1)", nCalls, nSw)
+	}
+}
+
+// ---- C02.R14 only the text of a string reaches UnmarshalText ----
+
+// encoding/json calls UnmarshalText for a JSON string and answers every other value (array, object, number, true,
+// false) with an UnmarshalTypeError; null is handled apart. The four functions of the decoder that call the method
+// (the typed text decoder and the one for a value held by an interface, buffer and stream) capture the value's text
+// and look at its first byte. Obligation: in front of the call the first byte is dispatched so that each of
+// '[' '{' '-' '0'…'9' 't' 'f' leaves with an error, either in a switch over text[0] whose clauses return, or through a
+// helper with such a switch whose non-empty answer returns (`if name := nonStringValue(src); name != "" { return … }`).
+func c02r14(rc *core.RC) {
+	p := rc.P
+	pk := p.Pkg("decoder")
+	if pk == nil {
+		rc.Unknown("decoder", token.NoPos, "package not found")
+		return
+	}
+	info := pk.TypesInfo
+	required := []byte("[{-0123456789tf")
+	// the bytes for which a switch over x[0] has a clause that ends in a return (returnsValue: any return)
+	covered := func(fi *types.Info, body ast.Node, before token.Pos, needNonEmpty bool) map[byte]bool {
+		out := map[byte]bool{}
+		ast.Inspect(body, func(m ast.Node) bool {
+			sw, ok := m.(*ast.SwitchStmt)
+			if !ok || sw.Tag == nil || (before.IsValid() && sw.Pos() > before) {
+				return true
+			}
+			ix, ok := core.Unparen(sw.Tag).(*ast.IndexExpr)
+			if !ok {
+				return true
+			}
+			if v, isC := core.ConstInt(fi, ix.Index); !isC || v != 0 {
+				return true
+			}
+			for _, c := range sw.Body.List {
+				cc := c.(*ast.CaseClause)
+				if len(cc.Body) == 0 {
+					continue
+				}
+				ret, isRet := cc.Body[len(cc.Body)-1].(*ast.ReturnStmt)
+				if !isRet {
+					continue
+				}
+				if needNonEmpty {
+					// the helper's answer: a non-empty string constant
+					if len(ret.Results) != 1 {
+						continue
+					}
+					tv, has := fi.Types[ret.Results[0]]
+					if !has || tv.Value == nil || tv.Value.Kind() != constant.String || constant.StringVal(tv.Value) == "" {
+						continue
+					}
+				}
+				for _, e := range cc.List {
+					if v, isC := core.ConstInt(fi, e); isC && v >= 0 && v < 256 {
+						out[byte(v)] = true
+					}
+				}
+			}
+			return true
+		})
+		return out
+	}
+	n := 0
+	for _, fd := range p.Funcs("decoder") {
+		if fd.Body == nil {
+			continue
+		}
+		var call *ast.CallExpr
+		ast.Inspect(fd.Body, func(m ast.Node) bool {
+			if c, ok := m.(*ast.CallExpr); ok {
+				if sel, ok := c.Fun.(*ast.SelectorExpr); ok && sel.Sel.Name == "UnmarshalText" && len(c.Args) == 1 {
+					call = c
+				}
+			}
+			return true
+		})
+		if call == nil {
+			continue
+		}
+		n++
+		name := p.FuncName(fd)
+		rc.Touch(name)
+		cov := covered(info, fd.Body, call.Pos(), false)
+		// through a helper: if name := H(src); name != "" { return … }
+		ast.Inspect(fd.Body, func(m ast.Node) bool {
+			ifs, ok := m.(*ast.IfStmt)
+			if !ok || ifs.Init == nil || ifs.Pos() > call.Pos() || len(ifs.Body.List) == 0 {
+				return true
+			}
+			if _, isRet := ifs.Body.List[len(ifs.Body.List)-1].(*ast.ReturnStmt); !isRet {
+				return true
+			}
+			as, ok := ifs.Init.(*ast.AssignStmt)
+			if !ok || len(as.Rhs) != 1 {
+				return true
+			}
+			hc, ok := core.Unparen(as.Rhs[0]).(*ast.CallExpr)
+			if !ok {
+				return true
+			}
+			be, ok := core.Unparen(ifs.Cond).(*ast.BinaryExpr)
+			if !ok || be.Op != token.NEQ {
+				return true
+			}
+			if tv, has := info.Types[be.Y]; !has || tv.Value == nil || tv.Value.Kind() != constant.String || constant.StringVal(tv.Value) != "" {
+				return true
+			}
+			if f := core.Callee(info, hc); f != nil {
+				if d := p.DeclOf(f); d != nil && d.Body != nil {
+					for b := range covered(p.Info(d), d.Body, token.NoPos, true) {
+						cov[b] = true
+					}
+				}
+			}
+			return true
+		})
+		var missing []byte
+		for _, b := range required {
+			if !cov[b] {
+				missing = append(missing, b)
+			}
+		}
+		rc.Check(len(missing) == 0, name+"/non-strings-leave-before-UnmarshalText", call.Pos(), "in front of the call of UnmarshalText the first byte of the value is dispatched so that arrays, objects, numbers and the literals true and false leave with an error; values that begin with %q reach the method with their text (encoding/json answers them with an UnmarshalTypeError)", string(missing))
+	}
+	if n < 4 {
+		rc.Unknown("decoder/UnmarshalText-callers", token.NoPos, "found %d functions that call UnmarshalText (confirmed: 4)", n)
 	}
 }
